@@ -1,14 +1,15 @@
 (** M-BUILD (2/3) -- executable model of [sqlx.CheckChangesScope]
-    (sql/internal/sqlx/plan.go, as fixed by f5aa118: the enum arm is guarded by
-    [t.Schema != nil]) and of [migrate.PlanMode.Is] (sql/migrate/migrate.go).
+    (sql/internal/sqlx/plan.go, as fixed by f5aa118 and by the C16 repairs: the enum arm
+    is guarded by [t.Schema != nil && t.Schema.Name != ""], RenameTable records the schemas
+    of both ends) and of [migrate.PlanMode.Is] (sql/migrate/migrate.go).
     No proofs here.
 
     Representation:
     * a [*schema.Schema] read through [.Name] only is an [option bytes] ([None] = nil).
     * a table is its schema and, per column, whether the column type is an
       [*schema.EnumType] and then the enum's schema.
-    * every change kind that falls into the [default: continue] arm (RenameTable,
-      AddObject/DropObject/ModifyObject, views, functions, ...) is [COther ns] where [ns]
+    * every change kind that falls into the [default: continue] arm
+      (AddObject/DropObject/ModifyObject/RenameObject, views, functions, ...) is [COther ns] where [ns]
       lists the schema names that change mentions (CheckChangesScope never looks at them;
       the specification in Props_C16 does).
     * [names] (a Go map used as a set) is a duplicate-free list; only its size is read.
@@ -28,6 +29,7 @@ Inductive change :=
 | CModifySchema (s : option bytes)         (* c.S ; None = nil pointer *)
 | CAddSchema | CDropSchema
 | CAddTable (t : stable) | CModifyTable (t : stable) | CDropTable (t : stable)
+| CRenameTable (from to : option bytes)   (* c.From.Schema, c.To.Schema *)
 | COther (mentions : list bytes).
 
 Inductive scope_res :=
@@ -52,20 +54,22 @@ Fixpoint enum_arm (tschema : option bytes) (cols : list coltype) (names : list b
   | [] => names
   | TEnum (Some e) :: rest =>
       match tschema with
-      | Some tn => if is_nil e then enum_arm tschema rest names
+      | Some tn => if is_nil e || is_nil tn then enum_arm tschema rest names
                    else enum_arm tschema rest (add_name tn names)
       | None => enum_arm tschema rest names
       end
   | _ :: rest => enum_arm tschema rest names
   end.
 
+(* if t.Schema != nil && t.Schema.Name != "" { names[t.Schema.Name] = struct{}{} } *)
+Definition schema_arm (s : option bytes) (names : list bytes) : list bytes :=
+  match s with
+  | Some n => if is_nil n then names else add_name n names
+  | None => names
+  end.
+
 Definition table_arm (t : stable) (names : list bytes) : list bytes :=
-  let names1 :=
-    match st_schema t with
-    | Some n => if is_nil n then names else add_name n names
-    | None => names
-    end in
-  enum_arm (st_schema t) (st_cols t) names1.
+  enum_arm (st_schema t) (st_cols t) (schema_arm (st_schema t) names).
 
 (* plan.go: CheckChangesScope; [q] = opts.SchemaQualifier, [mode] = opts.Mode *)
 Fixpoint scope_loop (q : option bytes) (mode : N) (cs : list change) (names : list bytes) : scope_res :=
@@ -84,6 +88,7 @@ Fixpoint scope_loop (q : option bytes) (mode : N) (cs : list change) (names : li
                end
       | CAddSchema | CDropSchema => ESchemaChange
       | CAddTable t | CModifyTable t | CDropTable t => scope_loop q mode rest (table_arm t names)
+      | CRenameTable from to => scope_loop q mode rest (schema_arm to (schema_arm from names))
       | COther _ => scope_loop q mode rest names
       end
   end.
